@@ -21,6 +21,7 @@ import (
 	"fmt"
 	"os"
 	"reflect"
+	"runtime"
 	"strconv"
 	"strings"
 	"sync"
@@ -248,6 +249,24 @@ func (s *c13Side) takeIn() []c13In {
 	r := s.in
 	s.in = nil
 	return r
+}
+
+// c13NoHandlerRunning waits until no goroutine is inside handleReq.  TryToReplaceLoop starts a second
+// receive loop while the first is still inside a handler, so the barrier (taken by the new loop) does
+// not prove that the old loop's message has left handleReq (its deferred Unlock may be pending).
+func c13NoHandlerRunning() bool {
+	deadline := time.Now().Add(c13Watch)
+	buf := make([]byte, 1<<20)
+	for {
+		n := runtime.Stack(buf, true)
+		if !bytes.Contains(buf[:n], []byte("client.(*Conn).handleReq")) {
+			return true
+		}
+		if time.Now().After(deadline) {
+			return false
+		}
+		time.Sleep(100 * time.Microsecond)
+	}
 }
 
 // sync: a non-confirmable barrier request through the receive queue; its message ID avoids every
@@ -533,7 +552,7 @@ func (p *c13Run) settle() {
 			p.hung = true
 			return
 		}
-		if !p.a.sync() || !p.b.sync() {
+		if !p.a.sync() || !p.b.sync() || !c13NoHandlerRunning() {
 			p.hung = true
 			return
 		}
